@@ -130,7 +130,7 @@ Open Scope Z_scope.
     },
     "C01": {
         "title": "Homogeneous media: traveltime equals distance over velocity - the exact-arithmetic mechanisms (model: gen/Fteik2d.v, gen/Fteik3d.v).  The global tolerances are examined on the implementation by the oracle.",
-        "header": HDR_R.format(imports="From FT.proofs Require Import Sweep2dProofs OperatorsR SweepDargs.\nFrom FT.proofs Require Operators3R."),
+        "header": HDR_R.format(imports="From FT.proofs Require Import Sweep2dProofs OperatorsR SweepDargs.\nFrom FT.proofs Require Operators3R InitSym InitExact."),
         "theorems": [
             ("sweep2d_constants", "SweepDargs.sweep2d_through_dargs2", "a 2D pass hands every node update the tuple (dz, dx, 1/dz, 1/dx, 1/dz^2, 1/dx^2) and depends on the spacings only through it (every numeric instance)"),
             ("sweep3d_constants", "SweepDargs.sweep3d_through_dargs3", "a 3D pass hands every node update (dz, dx, dy, 1/dz^2, 1/dx^2, 1/dy^2, their pairwise products in the order zx, zy, xy, and their sum) - the constants the plane-wave exactness theorems below are stated for"),
@@ -144,12 +144,16 @@ Open Scope Z_scope.
             ("t_ana_3d", "Operators3R.t_ana_exact", "3D analytic seed"),
             ("op3_exact_on_plane_wave", "Operators3R.op3_exact_on_plane_wave", "the 3D operator is exact on every plane wave with non-negative direction cosines"),
             ("sweep3d_plane_wave", "Operators3R.sweep_op3_plane_wave", "the generated 3D sweep applies it"),
+            ("init_is_four_copies", "InitSym.fteik2d_p2_decompose", "off-node sources: the generated source-line initialisation is (by conversion) corners + east, west, down, up phases"),
+            ("init_homogeneous_exact", "InitExact.fteik2d_init_homogeneous_exact", "homogeneous medium, source anywhere in its cell, any spacings: after the initialisation every node is either untouched (placeholder) or holds exactly slowness x distance, and the set of written nodes is init_set (corners of the source cell and the reached nodes of the two rows and two columns through it); in particular the admissibility guard of fix fdc5767 always passes there"),
+            ("init_written_nodes", "InitExact.init_set_spelled_out", "which nodes are written"),
+            ("init_homogeneous_signs", "InitExact.fteik2d_init_homogeneous_signs", "and the gradient signs recorded for them point away from the source"),
         ],
         "examples": [],
     },
     "C05": {
         "title": "Unit invariance: times scale linearly with slowness and with length - exact arithmetic over the generated kernels",
-        "header": HDR_R.format(imports="From FT.model Require Import Api.\nFrom FT.proofs Require Import Sweep2dProofs OperatorsR ApiProofs.\nFrom FT.proofs Require Operators3R."),
+        "header": HDR_R.format(imports="From FT.model Require Import Api.\nFrom FT.proofs Require Import Sweep2dProofs OperatorsR ApiProofs.\nFrom FT.proofs Require Operators3R InitSym InitExact."),
         "theorems": [
             ("t_ana_scale_slowness", "OperatorsR.t_ana_scale_slowness", "analytic seed: slowness scaling"),
             ("t_ana_scale_length", "OperatorsR.t_ana_scale_length", "analytic seed: length scaling (source position in grid units is unchanged)"),
@@ -163,6 +167,10 @@ Open Scope Z_scope.
             ("t_ana_3d_scale_length", "Operators3R.t_ana_scale_length", "3D seed"),
             ("slowness_handed_to_kernel_scales", "ApiProofs.slowness_of_scale", "API layer (hand model coq/model/Api.v): dividing every velocity by c multiplies the slowness model handed to the kernel by c"),
             ("ray_default_budget_unit_invariant", "ApiProofs.ray_max_step_unit_invariant", "API layer: the default ray budget int(2*diagonal/step) is unchanged when all lengths are rescaled"),
+            ("init_scale_slowness", "InitExact.fteik2d_init_scale_slowness", "the whole off-node source initialisation (sub-cell inverse distances dzi, dz2i included) under slowness scaling, heterogeneous media: times x c, placeholder entries stay (caveat Hbig: related entries are on the same side of the absolute placeholder 1e5 = finding F10/F11)"),
+            ("init_scale_length", "InitExact.fteik2d_init_scale_length", "and under length scaling (dz, dx x c; source position in grid units unchanged)"),
+            ("init_scale_slowness_ge1", "InitExact.fteik2d_init_scale_slowness_ge1", "for c >= 1 the caveat is a condition on the reference run alone"),
+            ("init_down_is_transpose_of_east", "InitSym.down_is_transpose_of_east_explicit", "the down copy uses dz exactly where the east copy uses dx (transposition pairing)"),
         ],
         "examples": [],
     },
@@ -280,7 +288,7 @@ Open Scope Z_scope.
     },
     "C03": {
         "title": "Solver total and sane: what is proved about the generated solver for all inputs (raise contract, shapes, 2D non-negativity in exact arithmetic); finite / bounded / zero-only-at-source and 3D non-negativity are examined on the implementation",
-        "header": HDR_G.format(imports="From Coq Require Import Reals.\nFrom FT.proofs Require Import Sweep2dProofs Sweep3dProofs Solve2dProofs Solve3dProofs.\nFrom FT.proofs Require OperatorsR NonNeg2d."),
+        "header": HDR_G.format(imports="From Coq Require Import Reals.\nFrom FT.proofs Require Import Sweep2dProofs Sweep3dProofs Solve2dProofs Solve3dProofs.\nFrom FT.proofs Require OperatorsR NonNeg2d Pos2d."),
         "theorems": [
             ("solve2d_raises_iff_source_outside", "Solve2dProofs.fteik2d_raises_iff", "the 2D solver raises ValueError exactly when the code's own domain test fails (comparisons as written: a NaN coordinate fails it) and otherwise returns; every numeric instance"),
             ("solve3d_raises_iff_source_outside", "Solve3dProofs.fteik3d_raises_iff", "3D"),
@@ -292,6 +300,10 @@ Open Scope Z_scope.
             ("pass_nonneg_2d", "NonNeg2d.sweep2d_nonneg", "a whole pass"),
             ("initialisation_nonneg_2d", "NonNeg2d.init_nonneg", "the state after the source initialisation: every entry is the placeholder, 0, an analytic time or a time that passed the admissibility guard against a non-negative neighbour (fix fdc5767)"),
             ("solve2d_nonneg", "NonNeg2d.fteik2d_nonneg_get", "every traveltime returned by the 2D solver is >= 0 and so is the reported source-cell slowness, for every model with non-negative slowness, every source, nsweep and flag"),
+            ("four_point_operator_strictly_causal", "Pos2d.four_point_gt_tev", "with positive slowness the 4-point operator is strictly later than the diagonal neighbour"),
+            ("solve2d_zero_iff_source_node", "Pos2d.fteik2d_zero_iff_source", "positive slowness: a returned traveltime is 0 exactly at the node where the solver's own frame puts the source (i_zsa, i_xsa: the source in grid units, snapped to a node when within eps); every other node is > 0"),
+            ("solve2d_at_most_one_zero", "Pos2d.fteik2d_at_most_one_zero", "at most one node holds 0"),
+            ("solve2d_zero_near_source", "Pos2d.fteik2d_zero_near_source", "in terms of the inputs only: a zero node is within 1e-15 of a cell of the given source"),
         ],
         "examples": [],
     },
